@@ -609,7 +609,9 @@ def check(prop, tier):
             if not fs_sel:   # flaky / not reproducible after shrinking: keep the original
                 small, fs_sel, io, mo = ops, [f], impl_out, model_out
             (strong_found if f.strong() else weak_found).append((f.case_id, small, fs_sel[0], io, mo, engine))
-            if len(strong_found) + len(weak_found) >= 3:
+            # cases explained by a listed known finding do not use up the budget of reported cases
+            fresh_n = sum(1 for x in strong_found if not matches_known(prop, known, x[1], x[2])) + len(weak_found)
+            if fresh_n >= 3 or len(strong_found) + len(weak_found) >= 12:
                 break
 
     # --- known-finding witnesses
@@ -655,9 +657,13 @@ def check(prop, tier):
     race = None
     if tier == "thorough" and cfg.get("race"):
         race = run_race(cfg["race"], seed)
+    elif tier == "quick" and cfg.get("race_quick"):
+        race = run_race(cfg["race_quick"], seed)
+    if race is not None:
         if race["racy"]:
-            os.makedirs(os.path.join(ROOT, "replays"), exist_ok=True)
-            path = os.path.join(ROOT, "replays", "%s-race-%d.json" % (prop, seed))
+            rdir = os.path.join(ROOT, "replays") if not ALT else os.path.join(WORK, "replays" + ALT)
+            os.makedirs(rdir, exist_ok=True)
+            path = os.path.join(rdir, "%s-race-%d.json" % (prop, seed))
             json.dump({"property": prop, "engine": "racer", "kind": "data-race", "ops": [], "case": "-",
                        "detail": "the -race stress reported a data race between lock-free readers and writers, or duplicate table lock sequence numbers",
                        "report": race["report"], "rerun": race["cmd"]}, open(path, "w"), indent=1)
@@ -718,8 +724,12 @@ TRUSTED_COMMON = [
 
 
 def run_race(rc_cfg, seed):
-    """Builds harness/cmd/racer with -race against REPO and runs it; exit code 66 / 'DATA RACE' = racy."""
+    """Builds harness/cmd/racer (with -race unless norace) against REPO and runs it; exit code 66/67, 'DATA RACE' or
+    'DUPLICATE LOCK SEQUENCE' = racy. Supporting search for a failing schedule only, never part of a proof."""
     secs = int(rc_cfg.get("seconds", 20))
+    norace = bool(rc_cfg.get("norace"))
+    extra = rc_cfg.get("args", [])
+    repeat = int(rc_cfg.get("repeat", 1))
     with Lock():
         src = open(os.path.join(REPO, "go.sum")).read()
         modflag = []
@@ -728,16 +738,26 @@ def run_race(rc_cfg, seed):
             open(alt, "w").write(open(os.path.join(HARNESS, "go.mod")).read().replace("=> /repo", "=> " + REPO))
             open(alt[:-4] + ".sum", "w").write(src)
             modflag = ["-modfile=" + alt]
-        exe = os.path.join("bin", "racer" + ALT)
-        rc, out = sh(["go", "build", "-race"] + modflag + ["-tags", "verif", "-o", exe, "./cmd/racer"], cwd=HARNESS, env=GOENV, timeout=1800)
-    cmd = "GORACE='halt_on_error=1 exitcode=66' %s -d %ds -seed %d" % (os.path.join(HARNESS, exe), secs, seed)
+        exe = os.path.join("bin", ("racer-norace" if norace else "racer") + ALT)
+        tmp = exe + ".tmp%d" % os.getpid()
+        rc, out = sh(["go", "build"] + ([] if norace else ["-race"]) + modflag + ["-tags", "verif", "-o", tmp, "./cmd/racer"],
+                     cwd=HARNESS, env=GOENV, timeout=1800)
+        if rc == 0:
+            os.replace(os.path.join(HARNESS, tmp), os.path.join(HARNESS, exe))
+    args = ["-d", "%ds" % secs, "-seed", str(seed)] + extra
+    cmd = "GORACE='halt_on_error=1 exitcode=66' %s %s" % (os.path.join(HARNESS, exe), " ".join(args))
     if rc != 0:
         return {"seconds": secs, "racy": False, "cmd": cmd, "report": "racer does not build: " + out[-500:]}
     env = dict(GOENV, GORACE="halt_on_error=1 exitcode=66")
-    p = subprocess.run([os.path.join(HARNESS, exe), "-d", "%ds" % secs, "-seed", str(seed)], env=env,
-                       stdout=subprocess.PIPE, stderr=subprocess.STDOUT, text=True, timeout=secs + 600)
-    racy = p.returncode in (66, 67) or "DATA RACE" in p.stdout or "DUPLICATE LOCK SEQUENCE" in p.stdout
-    return {"seconds": secs, "racy": racy, "cmd": cmd, "report": p.stdout[-6000:]}
+    racy, report = False, ""
+    for _ in range(repeat):
+        p = subprocess.run([os.path.join(HARNESS, exe)] + args, env=env,
+                           stdout=subprocess.PIPE, stderr=subprocess.STDOUT, text=True, timeout=secs + 600)
+        report = p.stdout[-6000:]
+        if p.returncode in (66, 67) or "DATA RACE" in p.stdout or "DUPLICATE LOCK SEQUENCE" in p.stdout:
+            racy = True
+            break
+    return {"seconds": secs, "racy": racy, "cmd": cmd, "report": report}
 
 
 def coqchk(prop):
